@@ -4,6 +4,8 @@ import (
 	"context"
 	"errors"
 	"sync"
+
+	"github.com/aperturerobotics/util/verifhook"
 )
 
 // Broadcast implements notifying waiters via a channel.
@@ -19,6 +21,8 @@ type Broadcast struct {
 // broadcast closes the wait channel, if any.
 // getWaitCh returns a channel that will be closed when broadcast is called.
 func (c *Broadcast) HoldLock(cb func(broadcast func(), getWaitCh func() <-chan struct{})) {
+	defer verifhook.Unlocked(c)
+	verifhook.Lock(c)
 	c.mtx.Lock()
 	defer c.mtx.Unlock()
 	cb(c.broadcastLocked, c.getWaitChLocked)
@@ -27,9 +31,11 @@ func (c *Broadcast) HoldLock(cb func(broadcast func(), getWaitCh func() <-chan s
 // TryHoldLock attempts to lock the mutex and call the callback.
 // It returns true if the lock was acquired and the callback was called, false otherwise.
 func (c *Broadcast) TryHoldLock(cb func(broadcast func(), getWaitCh func() <-chan struct{})) bool {
+	verifhook.Lock(c)
 	if !c.mtx.TryLock() {
 		return false
 	}
+	defer verifhook.Unlocked(c)
 	defer c.mtx.Unlock()
 	cb(c.broadcastLocked, c.getWaitChLocked)
 	return true
@@ -39,7 +45,10 @@ func (c *Broadcast) TryHoldLock(cb func(broadcast func(), getWaitCh func() <-cha
 // If the mutex cannot be locked right now, starts a new Goroutine to wait for it.
 func (c *Broadcast) HoldLockMaybeAsync(cb func(broadcast func(), getWaitCh func() <-chan struct{})) {
 	holdBroadcastLock := func(lock bool) {
+		defer verifhook.Unlocked(c)
 		if lock {
+			verifhook.Go("broadcast.holdasync", c)
+			verifhook.Lock(c)
 			c.mtx.Lock()
 		}
 		// use defer to catch panic cases
@@ -48,6 +57,7 @@ func (c *Broadcast) HoldLockMaybeAsync(cb func(broadcast func(), getWaitCh func(
 	}
 
 	// fast path: lock immediately
+	verifhook.Lock(c)
 	if c.mtx.TryLock() {
 		holdBroadcastLock(false)
 	} else {
